@@ -248,6 +248,18 @@ func buildLabBatch(args map[string]string, dirName string, withFaults bool) (*la
 	if s, ok := args["jstypearray"]; ok {
 		jsTypeArrayStyle = s
 	}
+	if s, ok := args["cuespell"]; ok {
+		cueSpellStyle = s // canonical | mixed | alt (src_render_cue.go)
+	}
+	docOpts := defaultDocOpts()
+	for _, t := range strings.Split(args["docswitches"], ",") { // +tag switches a document variant on, -tag off
+		switch {
+		case strings.HasPrefix(t, "+"):
+			delete(docOpts.Avoid, t[1:])
+		case strings.HasPrefix(t, "-"):
+			docOpts.Avoid[t[1:]] = true
+		}
+	}
 	flagmix := args["flagmix"] != "0" && !opts.Builders
 	lab, err := NewLab(labWorkDir(dirName), opts)
 	if err != nil {
@@ -281,7 +293,7 @@ func buildLabBatch(args map[string]string, dirName string, withFaults bool) (*la
 			if c.Defs == nil {
 				continue
 			}
-			dg := newDocGen(c.Defs, newRng(seed*7919+uint64(i)*31+5), defaultDocOpts())
+			dg := newDocGen(c.Defs, newRng(seed*7919+uint64(i)*31+5), docOpts)
 			for k := 0; k < ndocs; k++ {
 				b.docs[c.ID] = append(b.docs[c.ID], dg.validDoc())
 			}
